@@ -290,6 +290,8 @@ pub struct StepObs {
     pub trailing: Vec<u8>,
     pub unread_by_server: usize,
     pub handler_calls: Vec<crate::rec::Call>,
+    /// the server was still waiting for input although the whole request had been written
+    pub blocked: bool,
 }
 
 /// Send one symbol to the server and observe everything.
@@ -312,11 +314,13 @@ pub fn send_sym(peer: &std::os::unix::net::UnixStream, srv: &mut util::Srv, be: 
     fds.extend(socks.iter().step_by(2).map(|s| s.as_raw_fd()));
     let flags = F_VERSION1 | if s.nr { F_NEED_REPLY } else { 0 };
     sys::send_all(peer.as_raw_fd(), &spec::msg(s.op.code(), flags, &body), &fds).expect("send request");
-    let res = util::catch(|| srv.handle_request())?;
+    let sfd = srv.as_raw_fd();
+    let (res, blocked) = util::serve_bounded(sfd, || srv.handle_request());
+    let res = res?;
     let (msgs, trailing) = spec::read_all_msgs(peer.as_raw_fd(), 1 << 20);
     let unread = sys::inq(srv.as_raw_fd());
     let calls = be.lock().unwrap().log.clone();
-    Ok(StepObs { result: format!("{res:?}"), msgs, trailing, unread_by_server: unread, handler_calls: calls })
+    Ok(StepObs { result: format!("{res:?}"), msgs, trailing, unread_by_server: unread, handler_calls: calls, blocked })
 }
 
 fn features_for(s: &Sym) -> u64 {
@@ -356,6 +360,11 @@ pub fn run_history(cfg: &Cfg, hist: &[Sym], case: &str) -> bool {
             report::violation(&format!("C04:{}:{}", s.op.name(), sig), detail(what, obs), cfg.replay(case));
             ok = false;
         };
+        // (0) the whole request was on the wire: a server still waiting reads more than header + size
+        if obs.blocked {
+            bad("server waits for bytes beyond header + declared size (blocked-reader certificate)", "waits-for-more-than-the-request", &obs);
+            return false;
+        }
         // (1) consumed exactly header + declared size
         if obs.unread_by_server != 0 {
             bad("server left request bytes unread", "request-not-consumed", &obs);
